@@ -2195,6 +2195,15 @@ func (s *swamp) SaveFunction(t treasure.Treasure, guardID guard.ID) treasure.Tre
 		// treasure may still be sitting in the write buffer. We must remove it first,
 		// otherwise beacon.Add silently drops the new treasure (key already exists)
 		// and only the OpDelete gets flushed — causing data loss after swamp reopen.
+		// The pending delete marker is the only record that the key is present in the storage
+		// file. Hand that knowledge (the file pointer) to the new treasure: should the new
+		// treasure be deleted again before the next flush, deleteHandler must still write the
+		// delete entry, otherwise the old stored value reappears after the swamp is reloaded.
+		if pending := s.treasuresWaitingForWriter.Get(t.GetKey()); pending != nil && pending != t {
+			if fileName := pending.GetFileName(); fileName != nil && t.GetFileName() == nil {
+				t.BodySetFileName(guardID, *fileName)
+			}
+		}
 		s.treasuresWaitingForWriter.Delete(t.GetKey())
 
 		// add the treasure to the treasuresWaitingForWriter index
